@@ -313,6 +313,9 @@ type Interp struct {
 	// CondHook resolves conditions outside the comparison subset (a boolean
 	// parameter, err != nil); ok=false leaves the condition unsupported.
 	CondHook func(e ast.Expr) (Tri, bool)
+	// OnAssign, when set, is called for every assignment statement executed
+	// on a path, with the aliases in force before it.
+	OnAssign func(as *ast.AssignStmt, env map[types.Object]Lin)
 }
 
 // Cond evaluates a boolean expression under the interpreter's ordering.
@@ -458,7 +461,20 @@ func (in *Interp) run(list []ast.Stmt, p Path) []Path {
 	case *ast.DeclStmt:
 		return in.run(rest, p)
 	case *ast.AssignStmt:
+		if in.OnAssign != nil {
+			in.OnAssign(x, p.Env)
+		}
 		switch x.Tok {
+		case token.OR_ASSIGN, token.AND_ASSIGN, token.XOR_ASSIGN, token.AND_NOT_ASSIGN, token.SHL_ASSIGN, token.SHR_ASSIGN, token.MUL_ASSIGN, token.QUO_ASSIGN, token.REM_ASSIGN:
+			// bit and scale updates: the target is no longer a known term
+			q := p
+			q.Env = cloneEnv(p.Env)
+			for _, l := range x.Lhs {
+				if id, ok := l.(*ast.Ident); ok {
+					delete(q.Env, in.Info.ObjectOf(id))
+				}
+			}
+			return in.run(rest, q)
 		case token.ADD_ASSIGN, token.SUB_ASSIGN:
 			q := p
 			q.Accum = append(append([]ast.Node{}, p.Accum...), x)
